@@ -12,6 +12,13 @@ import (
 	"verifharness/mon"
 )
 
+func repoDir() string {
+	if d := os.Getenv("VERIF_REPO"); d != "" {
+		return d
+	}
+	return "/repo"
+}
+
 func main() {
 	if len(os.Args) >= 2 {
 		switch os.Args[1] {
@@ -31,7 +38,7 @@ func main() {
 		os.Exit(3)
 	}
 	self, _ := os.Executable()
-	ctx := &core.Ctx{Prop: os.Args[1], Tier: os.Args[2], Seed: core.EnvSeed(), RepoDir: "/repo", Workers: runtime.NumCPU(), SelfPath: self, BinDir: filepath.Dir(self)}
+	ctx := &core.Ctx{Prop: os.Args[1], Tier: os.Args[2], Seed: core.EnvSeed(), RepoDir: repoDir(), Workers: runtime.NumCPU(), SelfPath: self, BinDir: filepath.Dir(self)}
 	if ctx.Tier != "quick" && ctx.Tier != "thorough" {
 		fmt.Fprintln(os.Stderr, "tier must be quick or thorough")
 		os.Exit(3)
